@@ -208,6 +208,18 @@ class AArr:
     def __rtruediv__(s, o):
         return s._bin(o, "divide", True)
 
+    def __pow__(s, o):
+        return s._bin(o, "pow")
+
+    def __rpow__(s, o):
+        return s._bin(o, "pow", True)
+
+    def __floordiv__(s, o):
+        return s._bin(o, "floor_divide")
+
+    def __mod__(s, o):
+        return s._bin(o, "remainder")
+
     def __neg__(s):
         return Elemwise("negative", (s,))
 
@@ -532,6 +544,13 @@ class Concat(AArr):
                     return p.sum_mult(rng, lidx, q)
             off = off + n
         return total
+
+
+class BroadcastView(Elemwise):
+    """numpy.broadcast_to returns a read-only VIEW: no buffer is allocated and the base stays alive"""
+
+    _owns = False
+    _children = ()
 
 
 class View(AArr):
@@ -986,7 +1005,7 @@ class Namespace:
         bs = broadcast_shapes(x.shape, shape)
         if len(bs) != len(shape) or not all(bool(a == b) for a, b in zip(bs, shape)):
             raise ValueError(f"cannot broadcast shape {x.shape} to {shape}")
-        return Elemwise("broadcast_to", (x, Const(shape, x.dtype, "template")))
+        return BroadcastView("broadcast_to", (x, Const(shape, x.dtype, "template")))
 
     # manipulation
     def concat(self, arrays, axis=0, **kw):
